@@ -302,3 +302,87 @@ Proof.
   rewrite <- Hdd, <- Hl, <- Hrd, Hv2. split; [reflexivity|].
   rewrite E4. cbn [bind]. rewrite <- Hr4. repeat split; assumption.
 Qed.
+
+(* ---- the converse: single decodes can be joined ------------------------------ *)
+Definition Rone' i vals0 (d2 d1 : dstate) := Rone i vals0 d1 d2.
+Definition Rshift' v1 (d2 d1 : dstate) := Rshift v1 d1 d2.
+Definition Rshift0' v1 (d2 d1 : dstate) := Rshift0 v1 d1 d2.
+
+Ltac rev_prim Happ :=
+  let c1 := fresh "c1" in let c2 := fresh "c2" in let c1' := fresh "c1'" in
+  let HR := fresh "HR" in let E := fresh "E" in let E1 := fresh "E1" in
+  let x := fresh "x" in let r1 := fresh "r1" in let Hr := fresh "Hr" in
+  intros c1 c2 c1' HR E; pose proof HR as (Hr & _);
+  match type of E with
+  | bind ?rd _ = _ => destruct rd as [[x r1]|] eqn:E1; cbn [bind] in E; [|discriminate]
+  end;
+  rewrite Hr, E1; cbn [bind]; injection E as <-;
+  eexists; split; [reflexivity|apply Happ; exact HR].
+
+Lemma dec_walk_one_rev i vals0 : (i < length vals0)%nat ->
+  (forall ms, simf (Rio (Rone' i vals0)) (walk_list (io_handlers dec_prims) io_add_link ms)
+                                          (walk_list (io_handlers dec_prims) io_add_link ms)).
+Proof.
+  intros Hi. apply io_walk_sim; cbn [dec_prims p_numeric p_string p_codeflag p_constant p_new_refval p_factor p_bitmap].
+  - intros a b c. unfold simp, dec_numeric, Rone'. rev_prim Rone_append.
+  - intros a. unfold simp, dec_string, Rone'. rev_prim Rone_append.
+  - intros a b. unfold simp, dec_codeflag, Rone'. rev_prim Rone_append.
+  - intros a c1 c2 c1' HR E. unfold dec_constant, Rone' in *. injection E as <-.
+    pose proof HR as (Hr & _). rewrite Hr. eexists; split; [reflexivity|apply Rone_append; exact HR].
+  - intros a c1 c2 z c1' HR E. unfold dec_new_refval, Rone' in *. pose proof HR as (Hr & _).
+    destruct (read_int a (d_r c1)) as [[v r1]|] eqn:E1; cbn [bind] in E; [|discriminate].
+    rewrite Hr, E1. cbn [bind]. injection E as <- <-.
+    eexists; split; [reflexivity|apply Rone_append; exact HR].
+  - intros c1 c2 n HR. unfold dec_factor, Rone' in *. rewrite <- (Rone_cur _ _ _ _ Hi HR). auto.
+  - intros a c1 c2 bm HR. unfold dec_bitmap, Rone' in *. rewrite <- (Rone_cur _ _ _ _ Hi HR). auto.
+Qed.
+
+Lemma dec_walk_shift_rev v1 :
+  (forall ms, simf (Rio (Rshift' v1)) (walk_list (io_handlers dec_prims) io_add_link ms)
+                                       (walk_list (io_handlers dec_prims) io_add_link ms)).
+Proof.
+  apply io_walk_sim; cbn [dec_prims p_numeric p_string p_codeflag p_constant p_new_refval p_factor p_bitmap].
+  - intros a b c. unfold simp, dec_numeric, Rshift'. rev_prim Rshift_append.
+  - intros a. unfold simp, dec_string, Rshift'. rev_prim Rshift_append.
+  - intros a b. unfold simp, dec_codeflag, Rshift'. rev_prim Rshift_append.
+  - intros a c1 c2 c1' HR E. unfold dec_constant, Rshift' in *. injection E as <-.
+    pose proof HR as (Hr & _). rewrite Hr. eexists; split; [reflexivity|apply Rshift_append; exact HR].
+  - intros a c1 c2 z c1' HR E. unfold dec_new_refval, Rshift' in *. pose proof HR as (Hr & _).
+    destruct (read_int a (d_r c1)) as [[v r1]|] eqn:E1; cbn [bind] in E; [|discriminate].
+    rewrite Hr, E1. cbn [bind]. injection E as <- <-.
+    eexists; split; [reflexivity|apply Rshift_append; exact HR].
+  - intros c1 c2 n HR. unfold dec_factor, Rshift' in *. rewrite <- (Rshift_cur _ _ _ HR). auto.
+  - intros a c1 c2 bm HR. unfold dec_bitmap, Rshift' in *. rewrite <- (Rshift_cur _ _ _ HR). auto.
+Qed.
+
+Theorem decode_subsets_join T n b o1 v1 r1 outs' vals' rest :
+  decode_uncompressed T 1 b = Ok ([o1], [v1], r1) ->
+  decode_uncompressed T n r1 = Ok (outs', vals', rest) ->
+  decode_uncompressed T (S n) b = Ok (o1 :: outs', v1 :: vals', rest).
+Proof.
+  unfold decode_uncompressed. intros Ea Eb.
+  destruct (run_subsets dec_prims T dec_switch 0 1 _ []) as [[oa da]|] eqn:E0; cbn [bind] in Ea; [|discriminate].
+  injection Ea as -> Hva Hra.
+  destruct (run_subsets dec_prims T dec_switch 0 n _ []) as [[ob db]|] eqn:E5; cbn [bind] in Eb; [|discriminate].
+  injection Eb as -> Hvb Hrb.
+  cbn [run_subsets] in E0 |- *. unfold run_template in *.
+  destruct (walk_list (io_handlers dec_prims) io_add_link T _) as [s2|] eqn:E2; cbn [bind] in E0; [|discriminate].
+  injection E0 as Ho Hd. subst da.
+  assert (HR1 : Rst (Rio (Rone' 0 (repeat [] (S n))))
+             (mkWs regs0 (mkIo [] [] (dec_switch 0 (mkD b (repeat [] 1) 0))))
+             (mkWs regs0 (mkIo [] [] (dec_switch 0 (mkD b (repeat [] (S n)) 0))))).
+  { split; cbn; [reflexivity|]. repeat split; cbn. exists []. split; reflexivity. }
+  destruct (dec_walk_one_rev 0 (repeat [] (S n)) ltac:(cbn; lia) T _ _ _ HR1 E2)
+    as (s1 & E1 & Hr & Hdd & Hl & (Hrd & Hc1 & Hc2 & l & Hv2 & Hv1)).
+  rewrite E1. cbn [bind].
+  rewrite run_subsets_shift, run_subsets_acc_eq.
+  assert (HR2 : Rshift0' l (mkD r1 (repeat [] n) 0) (io_c (w_c s1))).
+  { unfold Rshift0', Rshift0. cbn. rewrite Hrd, Hra. split; [reflexivity|]. rewrite Hv1. reflexivity. }
+  destruct (run_subsets_sim dec_prims dec_prims (Rshift' l) (Rshift0' l) dec_switch (fun k => dec_switch (S k))
+              (dec_walk_shift_rev l)
+              (fun i c1 c2 H => match H with conj a b0 => conj a (conj b0 eq_refl) end)
+              (fun c1 c2 H => match H with conj a (conj b0 _) => conj a b0 end)
+              T n 0 _ _ [] _ _ HR2 E5) as (d2 & E4 & (Hr4 & Hv4)).
+  rewrite E4. cbn [bind app]. rewrite Hr4, Hv4, Hrb, Hvb.
+  rewrite Hv2 in Hva. injection Hva as ->. rewrite <- Hdd, <- Hl, Ho. reflexivity.
+Qed.
